@@ -94,6 +94,15 @@ def adopt_new_units(world, model, obs, prop):
             prev = next((x for x in reversed(units[:i]) if x.bytes()), None)
             nxt = next((x for x in units[i + 1 :] if x.bytes()), None)
             for t in list(trail if last_b is not None else lead):
+                if t.kind == "entry" and last_b is not None and nxt is not None:
+                    # an entry marker at the end of a unit marks the block
+                    # that starts the next one
+                    u.toks.remove(t)
+                    k = 0
+                    while k < len(nxt.toks) and not nxt.toks[k].is_bytes():
+                        k += 1
+                    nxt.toks.insert(k, t)
+                    continue
                 if t.kind != "label" or t.name in dup:
                     continue
                 h = home.get(t.name)
@@ -115,12 +124,21 @@ def adopt_new_units(world, model, obs, prop):
                 continue
             prev = next((x for x in reversed(units[:i]) if x.bytes()), None)
             nxt = next((x for x in units[i + 1 :] if x.bytes()), None)
+            # entry markers and deletion marks belong to what follows
+            fwd = [t for t in u.toks if t.kind in ("entry", "pmark")]
+            rest = [t for t in u.toks if t.kind not in ("entry", "pmark")]
+            if nxt is not None:
+                nxt.toks[0:0] = fwd
+            elif prev is not None:
+                prev.toks.extend(fwd)
             if prev is not None:
-                prev.toks.extend(u.toks)
+                prev.toks.extend(rest)
                 u.toks = []
             elif nxt is not None:
-                nxt.toks[0:0] = u.toks
+                nxt.toks[0:0] = rest
                 u.toks = []
+            else:
+                u.toks = rest + fwd
     # The order of the non-empty units of a section must equal the real
     # address order (bytes must not be reordered).  A difference is noted
     # and judged last, so that it cannot mask anything else; the model
@@ -150,6 +168,16 @@ def adopt_new_units(world, model, obs, prop):
 
 
 def match_unit(world, unit, o, obs):
+    """Strict padding rules first (minimal padding that leaves the next
+    block aligned); only if that fails, padding that was computed for the
+    pre-layout address (judged by C10)."""
+    res, err = _match_unit(world, unit, o, obs, True)
+    if res is None:
+        res, err = _match_unit(world, unit, o, obs, False)
+    return res, err
+
+
+def _match_unit(world, unit, o, obs, strict):
     """Match the model's bytes against the real interval, accepting only
     validated alignment padding (backtracking, because a nop token and nop
     padding look alike).  Returns ((posmap, pads), None) or (None, err)."""
@@ -177,7 +205,7 @@ def match_unit(world, unit, o, obs):
             if r == len(data):
                 return [r], []
             tail = data[r:]
-            if (_is_pad(tail, prev_kind(i), nop) or _is_pad(tail, _real_prev_kind(o, r), nop)) and _pad_ok(world, o, obs, r, len(tail), final=True):
+            if (_is_pad(tail, prev_kind(i), nop) or _is_pad(tail, _real_prev_kind(o, r), nop)) and _pad_ok(world, o, obs, r, len(tail), final=True, strict=strict):
                 return [r], [(r, len(tail))]
             if r > best["r"]:
                 best["r"], best["err"] = r, {"at_real_offset": r, "token": None, "expected": "", "found": tail[:16].hex(), "what": "trailing bytes"}
@@ -202,7 +230,7 @@ def match_unit(world, unit, o, obs):
                 continue
             if not (_is_pad(data[r : r + p], pk, nop) or _is_pad(data[r : r + p], _real_prev_kind(o, r), nop)):
                 continue
-            if not _pad_ok(world, o, obs, r, p):
+            if not _pad_ok(world, o, obs, r, p, strict=strict):
                 continue
             res = go(i + 1, r + p + len(t.b))
             if res is not None:
@@ -219,12 +247,15 @@ def match_unit(world, unit, o, obs):
     return (posmap, pads), None
 
 
-def _pad_ok(world, o, obs, r, p, final=False):
+def _pad_ok(world, o, obs, r, p, final=False, strict=True):
     """Padding must end where a block with an alignment requirement starts,
     be shorter than that alignment, leave that block aligned, and be
     covered by a block."""
     covered = any(off <= r and r + p <= off + size for (b, off, size, kind) in o.blocks)
     if not covered:
+        return False
+    if strict and not any(off == r and size == p for (b, off, size, kind) in o.blocks):
+        # the library covers padding with a block of its own
         return False
     if final:
         # padding at the very end of an interval: uninitialized bytes that
@@ -238,6 +269,8 @@ def _pad_ok(world, o, obs, r, p, final=False):
     # possible re-layout moves the interval; whether it is minimal and still
     # leaves the block aligned afterwards is judged by C10, not here.
     if p >= al or (o.addr is not None and (o.addr + r + p) % al):
+        if strict:
+            return False
         obs.pad_notes.append({"unit": o.unit, "offset": r, "length": p, "alignment": al, "address": None if o.addr is None else o.addr + r + p})
     return True
 
